@@ -11,7 +11,7 @@ open Res
 check of `schema/mod.rs` that establishes it):
 * every field's base type is a built-in scalar or a vertex type
   (`check_type_and_property_and_edge_invariants`, else `UnknownPropertyOrEdgeType`);
-* no vertex type is called `__typename` (`ReservedTypeName`);
+* no vertex type and no field is called `__typename` (`ReservedTypeName`, `ReservedFieldName`);
 * the parameter names of a field are distinct — **not checked by `Schema::new`** (N-5): it is an
   assumption about the schema, and `paramDuplicate_witness` shows what happens without it;
 * the query type is a vertex type and all its fields are edges
@@ -22,6 +22,7 @@ structure ValidSchemaView (S : SchemaView) : Prop where
   fieldTypes : ∀ t ∈ S.types, ∀ f ∈ t.fields,
     isBuiltinScalar f.ty.base = true ∨ S.isVertexType f.ty.base = true
   typenameFree : S.isVertexType TYPENAME = false
+  fieldNames : ∀ t ∈ S.types, ∀ f ∈ t.fields, f.name ≠ TYPENAME
   paramsDistinct : ∀ t ∈ S.types, ∀ f ∈ t.fields, (f.params.map (·.name)).Nodup
   queryType : S.isVertexType S.queryType = true
   rootEdges : ∀ t ∈ S.types, t.name = S.queryType → ∀ f ∈ t.fields, S.isVertexType f.ty.base = true
@@ -33,6 +34,7 @@ structure ValidSchemaView (S : SchemaView) : Prop where
 def validSchemaViewB (S : SchemaView) : Bool :=
   S.types.all (fun t => t.fields.all (fun f =>
     (isBuiltinScalar f.ty.base || S.isVertexType f.ty.base) &&
+    f.name != TYPENAME &&
     decide (f.params.map (·.name)).Nodup &&
     (match S.originOf S.types.length t.name f.name with
      | [a] => (S.field a f.name).isSome
@@ -46,8 +48,9 @@ theorem validSchemaViewB_sound {S : SchemaView} (h : validSchemaViewB S = true) 
   simp only [Bool.and_eq_true, List.all_eq_true, Bool.or_eq_true, decide_eq_true_eq,
     Bool.not_eq_eq_eq_not, Bool.not_true, bne_iff_ne, ne_eq] at h
   obtain ⟨⟨hall, htn⟩, hq⟩ := h
-  refine ⟨?_, htn, ?_, hq, ?_, ?_⟩
-  · intro t ht f hf; exact (hall t ht f hf).1.1.1
+  refine ⟨?_, htn, ?_, ?_, hq, ?_, ?_⟩
+  · intro t ht f hf; exact (hall t ht f hf).1.1.1.1
+  · intro t ht f hf; exact (hall t ht f hf).1.1.1.2
   · intro t ht f hf; exact (hall t ht f hf).1.1.2
   · intro t ht hname f hf
     rcases (hall t ht f hf).2 with h | h
